@@ -1,9 +1,9 @@
 package gen
 
 import (
-	"strings"
 	"fmt"
 	"math"
+	"strings"
 
 	"verif/harness/internal/core"
 	"verif/harness/internal/model"
